@@ -1160,7 +1160,7 @@ isal_write_zlib_header(struct isal_zstream *stream, struct isal_zlib_header *z_h
         out_buf[1] = flg;
 
         if (dict_flag)
-                store_le_u32(out_buf + 2, z_hdr->dict_id);
+                store_be_u32(out_buf + 2, z_hdr->dict_id);
 
         stream->next_out += hdr_size;
         stream->total_out += hdr_size;
